@@ -3,48 +3,65 @@ import GoomVerif.Model.Iface
 namespace C07L
 open Iface
 
-theorem methodIndexFrom_spec (ms : List String) (m : String) (i : Nat) (h : m ∈ ms) :
+theorem noShadow_tail {x : String} {xs : List String} {m : String} (h : NoShadow (x :: xs) m) : NoShadow xs m :=
+  fun y hy => h y (List.mem_cons_of_mem _ hy)
+
+theorem methodIndexFrom_spec (ms : List String) (m : String) (i : Nat) (h : m ∈ ms) (hns : NoShadow ms m) :
     ∃ j, methodIndexFrom ms m i = some (i + j) ∧ ms[j]? = some m ∧ ∀ j' < j, ms[j']? ≠ some m := by
   induction ms generalizing i with
   | nil => cases h
   | cons x xs ih =>
     unfold methodIndexFrom
+    have hiff := hns x List.mem_cons_self
     by_cases hx : m = x
-    · refine ⟨0, ?_, ?_, ?_⟩
-      · simp [hx]
+    · have hb : m = baseName x := hiff.mpr hx
+      refine ⟨0, ?_, ?_, ?_⟩
+      · simp [hb]
       · simp [hx]
       · intro j' hj'; omega
-    · have hm : m ∈ xs := by
+    · have hb : ¬ m = baseName x := fun e => hx (hiff.mp e)
+      have hm : m ∈ xs := by
         cases h with
         | head => exact absurd rfl hx
         | tail _ h' => exact h'
-      obtain ⟨j, h1, h2, h3⟩ := ih (i + 1) hm
+      obtain ⟨j, h1, h2, h3⟩ := ih (i + 1) hm (noShadow_tail hns)
       refine ⟨j + 1, ?_, ?_, ?_⟩
-      · simp only [hx, if_false]; rw [h1]; congr 1; omega
+      · simp only [hb, if_false]; rw [h1]; congr 1; omega
       · simpa using h2
       · intro j' hj'
         cases j' with
         | zero => simp; exact fun h => hx h.symm
         | succ n => simpa using h3 n (by omega)
 
-theorem methodIndexFrom_idxOf (ms : List String) (m : String) (i : Nat) (h : m ∈ ms) :
+theorem methodIndexFrom_idxOf (ms : List String) (m : String) (i : Nat) (h : m ∈ ms) (hns : NoShadow ms m) :
     methodIndexFrom ms m i = some (i + ms.idxOf m) := by
   induction ms generalizing i with
   | nil => cases h
   | cons x xs ih =>
     unfold methodIndexFrom
+    have hiff := hns x List.mem_cons_self
     by_cases hx : m = x
-    · subst hx; simp
-    · have hm : m ∈ xs := by
+    · have hb : m = baseName x := hiff.mpr hx
+      simp only [hb.symm ▸ hb, if_pos hb]
+      subst hx; simp
+    · have hb : ¬ m = baseName x := fun e => hx (hiff.mp e)
+      have hm : m ∈ xs := by
         cases h with
         | head => exact absurd rfl hx
         | tail _ h' => exact h'
       have hx' : ¬ (x = m) := fun h => hx h.symm
-      simp only [hx, if_false, ih (i + 1) hm]
-      have hb : (x == m) = false := by simpa using hx'
-      rw [List.idxOf_cons, hb]
+      simp only [hb, if_false, ih (i + 1) hm (noShadow_tail hns)]
+      have hbq : (x == m) = false := by simpa using hx'
+      rw [List.idxOf_cons, hbq]
       simp only [cond_false]
       congr 1; omega
+
+/-- with `NoShadow`, `MethodByName` finding the name means the method itself is in the set -/
+theorem hasMethod_mem (ms : List String) (m : String) (h : hasMethod ms m = true) (hns : NoShadow ms m) : m ∈ ms := by
+  simp only [hasMethod, List.any_eq_true, beq_iff_eq] at h
+  obtain ⟨q, hq, e⟩ := h
+  have := (hns q hq).mp e.symm
+  rw [this]; exact hq
 
 theorem lookup_filter_ne {κ : Type} [DecidableEq κ] (k k' : κ) (l : List (κ × Nat)) (h : k' ≠ k) :
     lookup k' (l.filter (fun p => p.1 ≠ k)) = lookup k' l := by
@@ -85,8 +102,8 @@ structure Inv (cfg : Cfg) (s : St) : Prop where
   o : ∀ j j', j < s.ncm → j' < s.ncm → (s.cms j).ctx = (s.cms j').ctx → j = j'
   p : ∀ f, f < s.nfake → (s.fakes f).data < s.nctx
 
-theorem inv_init (cfg : Cfg) (types : Nat → List String) (vtyp : Nat → Nat) (vars : Nat → Words)
-    (hv : ∀ v, ∃ x, vars v = .val x) : Inv cfg (St.init types vtyp vars) := by
+theorem inv_init (cfg : Cfg) (types : Nat → List String) (vtyp : Nat → Nat) (vars : Nat → Words) (sigs : Nat → List Nat)
+    (hv : ∀ v, ∃ x, vars v = .val x) : Inv cfg (St.init types vtyp vars sigs) := by
   refine ⟨?_, ?_, ?_, ?_, ?_, ?_, ?_, ?_, ?_, ?_, ?_, ?_⟩ <;> simp only [St.init] <;> intros
   all_goals first
     | (rename_i v f c hh; obtain ⟨x, hx⟩ := hv v; rw [hx] at hh; cases hh)
@@ -125,6 +142,18 @@ theorem interfaceOf_facts (cfg : Cfg) (s : St) (b v : Nat) (hI : Inv cfg s) :
     · rename_i j hj hcn
       refine ⟨hf _ _ _ hj, by simpa using hcn, fun hk => hh hk _ _ _ hj, rfl, rfl, rfl, rfl, rfl, rfl, rfl⟩
   · simp [freshCM, upd]
+
+theorem interfaceOf_sigs (cfg : Cfg) (s : St) (b v : Nat) : (interfaceOf cfg s b v).2.sigs = s.sigs := by
+  simp only [interfaceOf]
+  split
+  · split <;> rfl
+  · rfl
+
+theorem methodOf_sigs (s : St) (j : Nat) (m : String) : (methodOf s j m).2.sigs = s.sigs := by
+  simp only [methodOf]
+  split
+  · split <;> rfl
+  · rfl
 
 theorem inv_freshMM (cfg : Cfg) (s : St) (j : Nat) (m : String) (hI : Inv cfg s) : Inv cfg (freshMM s j m).2 := by
   obtain ⟨ha, hb, hc, hd, he, hf, hh, hl, hl', hm, ho, hp⟩ := hI
@@ -309,7 +338,7 @@ def whenOf (kind : Kind) (k : Nat) : Option When :=
 theorem mockOn_ok (cfg : Cfg) (s1 s' : St) (j : Nat) (m : String) (kind : Kind) (fits : Bool) (k : Nat) (hI1 : Inv cfg s1)
     (hs : mockOn cfg s1 j m kind fits k = some (s', .ok)) :
     ∃ s2 s3 i, Inv cfg s2 ∧ fits = true ∧ s2.ncm = s1.ncm ∧ s2.ctxs = s1.ctxs ∧ (s2.cms j).ctx = (s1.cms j).ctx
-      ∧ (s2.cms j).var = (s1.cms j).var ∧ m ∈ s2.types (s2.cms j).typ
+      ∧ (s2.cms j).var = (s1.cms j).var ∧ (s2.cms j).typ = (s1.cms j).typ ∧ hasMethod (s2.types (s2.cms j).typ) m = true
       ∧ s2.vars = s1.vars ∧ s2.fakes = s1.fakes ∧ s2.nfake = s1.nfake ∧ s2.types = s1.types ∧ s2.vtyp = s1.vtyp ∧ s2.cbs = s1.cbs
       ∧ proxyInterface cfg s2 (s2.cms j).var (s2.cms j).typ (s2.cms j).ctx m k (cbOf kind i) = some s3
       ∧ s' = { s3 with mms := upd s3.mms i { (s2.mms i) with hasGuard := true, imp := (some k), canceled := false, when_ := (whenOf kind k) } } := by
@@ -325,8 +354,8 @@ theorem mockOn_ok (cfg : Cfg) (s1 s' : St) (j : Nat) (m : String) (kind : Kind) 
   obtain ⟨i, s2⟩ := r2
   simp only at hs f2 hI2
   obtain ⟨g1, g2, g3, g4, g5, g6, g7, g8, g9, g10, g11, g12, g13, g14⟩ := f2
-  have hmem' : m ∈ s2.types (s2.cms j).typ := by
-    rw [g9, g5]; exact Classical.not_not.mp hmem
+  have hmem' : hasMethod (s2.types (s2.cms j).typ) m = true := by
+    rw [g9, g5]; simpa using hmem
   have hargs : ∀ cb, proxyInterface cfg s2 (s1.cms j).var (s1.cms j).typ (s1.cms j).ctx m k cb
       = proxyInterface cfg s2 (s2.cms j).var (s2.cms j).typ (s2.cms j).ctx m k cb := by intro cb; rw [g3, g4, g5]
   refine ⟨s2, ?_⟩
@@ -340,7 +369,7 @@ theorem mockOn_ok (cfg : Cfg) (s1 s' : St) (j : Nat) (m : String) (kind : Kind) 
     | none => simp [hq] at hs
     | some s3 =>
       simp only [hq, Option.map_some, Option.some.injEq, Prod.mk.injEq, and_true] at hs
-      refine ⟨s3, i, hI2, by simpa using hfit, g1, g2, g3, g4, hmem', g6, g7, g8, g9, g10, g11, ?_, ?_⟩
+      refine ⟨s3, i, hI2, by simpa using hfit, g1, g2, g3, g4, g5, hmem', g6, g7, g8, g9, g10, g11, ?_, ?_⟩
       · rw [← hargs]; exact hq
       · rw [← hs]; rfl
   | rt =>
@@ -354,7 +383,7 @@ theorem mockOn_ok (cfg : Cfg) (s1 s' : St) (j : Nat) (m : String) (kind : Kind) 
     | none => simp [hq] at hs
     | some s3 =>
       simp only [hq, Option.map_some, Option.some.injEq, Prod.mk.injEq, and_true] at hs
-      refine ⟨s3, i, hI2, by simpa using hfit, g1, g2, g3, g4, hmem', g6, g7, g8, g9, g10, g11, ?_, ?_⟩
+      refine ⟨s3, i, hI2, by simpa using hfit, g1, g2, g3, g4, g5, hmem', g6, g7, g8, g9, g10, g11, ?_, ?_⟩
       · rw [← hargs]; exact hq
       · rw [← hs]; rfl
   | wn a =>
@@ -368,7 +397,7 @@ theorem mockOn_ok (cfg : Cfg) (s1 s' : St) (j : Nat) (m : String) (kind : Kind) 
     | none => simp [hq] at hs
     | some s3 =>
       simp only [hq, Option.map_some, Option.some.injEq, Prod.mk.injEq, and_true] at hs
-      refine ⟨s3, i, hI2, by simpa using hfit, g1, g2, g3, g4, hmem', g6, g7, g8, g9, g10, g11, ?_, ?_⟩
+      refine ⟨s3, i, hI2, by simpa using hfit, g1, g2, g3, g4, g5, hmem', g6, g7, g8, g9, g10, g11, ?_, ?_⟩
       · rw [← hargs]; exact hq
       · rw [← hs]; rfl
 
@@ -428,14 +457,14 @@ theorem mockOn_panic (cfg : Cfg) (s1 s' : St) (j : Nat) (m : String) (kind : Kin
     | some s3 => simp [hq] at hs
 
 /-- decomposition of a successful `mockStep` (builder API) -/
-theorem mockStep_ok (cfg : Cfg) (s s' : St) (b v : Nat) (m : String) (kind : Kind) (fits : Bool) (hI : Inv cfg s)
-    (hs : mockStep cfg s b v m kind fits = some (s', .ok)) :
+theorem mockStep_ok (cfg : Cfg) (s s' : St) (b v : Nat) (m : String) (kind : Kind) (csig : Nat) (hI : Inv cfg s)
+    (hs : mockStep cfg s b v m kind csig = some (s', .ok)) :
     ∃ s2 s3 j i, Inv cfg s2 ∧ j < s2.ncm ∧ (s2.ctxs (s2.cms j).ctx).canceled = false
-      ∧ (cfg.keyByVar = true → (s2.cms j).var = v) ∧ m ∈ s2.types (s2.cms j).typ
+      ∧ (cfg.keyByVar = true → (s2.cms j).var = v) ∧ hasMethod (s2.types (s2.cms j).typ) m = true
       ∧ s2.vars = s.vars ∧ s2.fakes = s.fakes ∧ s2.nfake = s.nfake ∧ s2.types = s.types ∧ s2.vtyp = s.vtyp ∧ s2.cbs = s.cbs
       ∧ proxyInterface cfg s2 (s2.cms j).var (s2.cms j).typ (s2.cms j).ctx m s.ncb (cbOf kind i) = some s3
       ∧ s' = { s3 with mms := upd s3.mms i { (s2.mms i) with hasGuard := true, imp := (some s.ncb), canceled := false, when_ := (whenOf kind s.ncb) } }
-      ∧ fits = true := by
+      ∧ sigFits s (s2.cms j).typ m csig = true := by
   have hI0 := inv_ncb cfg s (s.ncb + 1) hI
   have f1 := interfaceOf_facts cfg _ b v hI0
   have hI1 := inv_interfaceOf cfg _ b v hI0
@@ -444,12 +473,14 @@ theorem mockStep_ok (cfg : Cfg) (s s' : St) (b v : Nat) (m : String) (kind : Kin
   obtain ⟨j, s1⟩ := r1
   simp only at hs f1 hI1
   obtain ⟨f1a, f1b, f1c, f1d, f1e, f1f, f1g, f1h, f1i, f1j⟩ := f1
-  obtain ⟨s2, s3, i, hI2, hfit, g1, g2, g3, g4, hmem, g6, g7, g8, g9, g10, g11, hp, he⟩ := mockOn_ok cfg s1 s' j m kind fits s.ncb hI1 hs
+  have hsg : s1.sigs = s.sigs := by have := interfaceOf_sigs cfg { s with ncb := s.ncb + 1 } b v; rw [hr1] at this; exact this
+  obtain ⟨s2, s3, i, hI2, hfit, g1, g2, g3, g4, g5, hmem, g6, g7, g8, g9, g10, g11, hp, he⟩ := mockOn_ok cfg s1 s' j m kind _ s.ncb hI1 hs
   exact ⟨s2, s3, j, i, hI2, by omega, by rw [g2, g3]; exact f1b, by intro h; rw [g4]; exact f1c h, hmem,
-    by rw [g6, f1d], by rw [g7, f1e], by rw [g8, f1f], by rw [g9, f1g], by rw [g10, f1h], by rw [g11, f1i], hp, he, hfit⟩
+    by rw [g6, f1d], by rw [g7, f1e], by rw [g8, f1f], by rw [g9, f1g], by rw [g10, f1h], by rw [g11, f1i], hp, he,
+    by rw [g5]; simpa [sigFits, f1g, hsg] using hfit⟩
 
-theorem mockStep_panic (cfg : Cfg) (s s' : St) (b v : Nat) (m : String) (kind : Kind) (fits : Bool) (c : String) (hI : Inv cfg s)
-    (hs : mockStep cfg s b v m kind fits = some (s', .panic c)) :
+theorem mockStep_panic (cfg : Cfg) (s s' : St) (b v : Nat) (m : String) (kind : Kind) (csig : Nat) (c : String) (hI : Inv cfg s)
+    (hs : mockStep cfg s b v m kind csig = some (s', .panic c)) :
     Inv cfg s' ∧ s'.vars = s.vars ∧ s'.fakes = s.fakes := by
   have hI0 := inv_ncb cfg s (s.ncb + 1) hI
   have f1 := interfaceOf_facts cfg _ b v hI0
@@ -459,17 +490,24 @@ theorem mockStep_panic (cfg : Cfg) (s s' : St) (b v : Nat) (m : String) (kind : 
   obtain ⟨j, s1⟩ := r1
   simp only at hs f1 hI1
   obtain ⟨f1a, f1b, f1c, f1d, f1e, f1f, f1g, f1h, f1i, f1j⟩ := f1
-  obtain ⟨h1, h2, h3, _, _⟩ := mockOn_panic cfg s1 s' j m kind fits s.ncb c hI1 hs
+  obtain ⟨h1, h2, h3, _, _⟩ := mockOn_panic cfg s1 s' j m kind _ s.ncb c hI1 hs
   exact ⟨h1, by rw [h2, f1d], by rw [h3, f1e]⟩
 
-theorem inv_mockStep (cfg : Cfg) (s s' : St) (b v : Nat) (m : String) (kind : Kind) (fits : Bool) (st : Status) (hI : Inv cfg s)
-    (hs : mockStep cfg s b v m kind fits = some (s', st)) : Inv cfg s' := by
+theorem inv_mockStep (cfg : Cfg) (s s' : St) (b v : Nat) (m : String) (kind : Kind) (csig : Nat) (st : Status) (hI : Inv cfg s)
+    (hs : mockStep cfg s b v m kind csig = some (s', st)) : Inv cfg s' := by
   cases st with
-  | panic c => exact (mockStep_panic cfg s s' b v m kind fits c hI hs).1
+  | panic c => exact (mockStep_panic cfg s s' b v m kind csig c hI hs).1
   | ok =>
-    obtain ⟨s2, s3, j, i, hI2, hj, hcn, _, _, _, _, _, _, _, _, hp, he, _⟩ := mockStep_ok cfg s s' b v m kind fits hI hs
+    obtain ⟨s2, s3, j, i, hI2, hj, hcn, _, _, _, _, _, _, _, _, hp, he, _⟩ := mockStep_ok cfg s s' b v m kind csig hI hs
     subst he
     exact inv_mms cfg _ _ _ (inv_proxyInterface cfg s2 s3 j m _ _ hI2 hj hcn hp)
+
+/-- the test assigns a plain value to the variable -/
+theorem inv_assign (cfg : Cfg) (s : St) (v x : Nat) (hI : Inv cfg s) : Inv cfg { s with vars := upd s.vars v (.val x) } := by
+  obtain ⟨ha, hb, hc, hd, he, hf, hh, hl, hl', hm, ho, hp⟩ := hI
+  simp only [bkey] at hh
+  refine ⟨?_, ?_, ?_, ?_, ?_, ?_, ?_, ?_, ?_, ?_, ?_, ?_⟩ <;> simp only [bkey] <;> intros
+  all_goals grind [upd]
 
 theorem inv_cancelMStep (cfg : Cfg) (s s' : St) (b v : Nat) (m : String) (st : Status) (hI : Inv cfg s)
     (hs : cancelMStep cfg s b v m = some (s', st)) : Inv cfg s' := by
@@ -496,8 +534,12 @@ theorem inv_cancelMStep (cfg : Cfg) (s s' : St) (b v : Nat) (m : String) (st : S
 theorem inv_step (cfg : Cfg) (s s' : St) (op : Op) (st : Status) (hI : Inv cfg s) (hapi : op.builderApi = true)
     (hs : step cfg s op = some (s', st)) : Inv cfg s' := by
   cases op with
-  | mock b v m kind fits => exact inv_mockStep cfg s s' b v m kind fits st hI hs
-  | mockH b v m kind fits => simp [Op.builderApi] at hapi
+  | mock b v m kind csig => exact inv_mockStep cfg s s' b v m kind csig st hI hs
+  | mockH b v m kind csig => simp [Op.builderApi] at hapi
+  | assign v x =>
+    simp only [step, Option.some.injEq, Prod.mk.injEq] at hs
+    obtain ⟨h1, _⟩ := hs; subst h1
+    exact inv_assign cfg s v x hI
   | cancelM b v m => exact inv_cancelMStep cfg s s' b v m st hI hs
   | reset b =>
     simp only [step, resetStep] at hs
@@ -594,15 +636,15 @@ theorem proxyInterface_out (cfg : Cfg) (s s' : St) (v t c : Nat) (m : String) (k
 
 /-- independence at one mock step: mocking variable `v` leaves every other variable's two words and the function table
     they dispatch through untouched -/
-theorem mock_other_vars (cfg : Cfg) (hk : cfg.keyByVar = true) (s s' : St) (b v : Nat) (m : String) (kind : Kind) (fits : Bool)
-    (st : Status) (hI : Inv cfg s) (hs : mockStep cfg s b v m kind fits = some (s', st)) (w : Nat) (hw : w ≠ v) :
+theorem mock_other_vars (cfg : Cfg) (hk : cfg.keyByVar = true) (s s' : St) (b v : Nat) (m : String) (kind : Kind) (csig : Nat)
+    (st : Status) (hI : Inv cfg s) (hs : mockStep cfg s b v m kind csig = some (s', st)) (w : Nat) (hw : w ≠ v) :
     s'.vars w = s.vars w ∧ ∀ f c, s.vars w = .fake f c → s'.fakes f = s.fakes f := by
   cases st with
   | panic c =>
-    obtain ⟨_, h1, h2⟩ := mockStep_panic cfg s s' b v m kind fits c hI hs
+    obtain ⟨_, h1, h2⟩ := mockStep_panic cfg s s' b v m kind csig c hI hs
     exact ⟨by rw [h1], fun f c _ => by rw [h2]⟩
   | ok =>
-    obtain ⟨s2, s3, j, i, hI2, hj, hcn, hvar, hmem, e1, e2, e3, e4, e5, e6, hp, he, hfit⟩ := mockStep_ok cfg s s' b v m kind fits hI hs
+    obtain ⟨s2, s3, j, i, hI2, hj, hcn, hvar, hmem, e1, e2, e3, e4, e5, e6, hp, he, hfit⟩ := mockStep_ok cfg s s' b v m kind csig hI hs
     obtain ⟨f, g, o1, o2, o3, o4, o5, o6, o7⟩ := proxyInterface_out cfg s2 s3 _ _ _ m _ _ hcn hp
     have hv := hvar hk
     subst he
@@ -627,28 +669,31 @@ theorem mock_other_vars (cfg : Cfg) (hk : cfg.keyByVar = true) (s s' : St) (b v 
     exact upd_other _ _ _ _ hne
 
 
-theorem methodIndexOf_eq_idxOf (ms : List String) (m : String) (h : m ∈ ms) : methodIndexOf ms m = ms.idxOf m := by
-  simp [methodIndexOf, methodIndexFrom_idxOf ms m 0 h]
+theorem methodIndexOf_eq_idxOf (ms : List String) (m : String) (h : m ∈ ms) (hns : NoShadow ms m) :
+    methodIndexOf ms m = ms.idxOf m := by
+  simp [methodIndexOf, methodIndexFrom_idxOf ms m 0 h hns]
 
 /-- the structural effect of a successful mock of method `m` of variable `v` (repaired key): the variable holds a fake
     iface whose table is `g` with the slot *at the position of `m` in the method set* pointing at the new callback -/
-theorem mock_dispatch (cfg : Cfg) (hk : cfg.keyByVar = true) (s s' : St) (b v : Nat) (m : String) (kind : Kind) (fits : Bool)
-    (hI : Inv cfg s) (hs : mockStep cfg s b v m kind fits = some (s', .ok)) :
+theorem mock_dispatch (cfg : Cfg) (hk : cfg.keyByVar = true) (s s' : St) (b v : Nat) (m : String) (kind : Kind) (csig : Nat)
+    (hI : Inv cfg s) (hns : NoShadow (s.types (s.vtyp v)) m) (hs : mockStep cfg s b v m kind csig = some (s', .ok)) :
     ∃ f c g i, s'.vars v = .fake f c ∧ s'.types = s.types ∧ s'.vtyp = s.vtyp ∧ m ∈ s.types (s.vtyp v)
       ∧ (s'.fakes f).fn = upd g ((s.types (s.vtyp v)).idxOf m) (.stub s.ncb)
       ∧ ((f = s.nfake ∧ g = fun _ => Slot.notImpl) ∨ (f < s.nfake ∧ g = (s.fakes f).fn))
-      ∧ s'.cbs s.ncb = cbOf kind i ∧ (s'.mms i).when_ = whenOf kind s.ncb ∧ fits = true := by
-  obtain ⟨s2, s3, j, i, hI2, hj, hcn, hvar, hmem, e1, e2, e3, e4, e5, e6, hp, he, hfit⟩ := mockStep_ok cfg s s' b v m kind fits hI hs
+      ∧ s'.cbs s.ncb = cbOf kind i ∧ (s'.mms i).when_ = whenOf kind s.ncb ∧ sigFits s (s.vtyp v) m csig = true := by
+  obtain ⟨s2, s3, j, i, hI2, hj, hcn, hvar, hmem, e1, e2, e3, e4, e5, e6, hp, he, hfit⟩ := mockStep_ok cfg s s' b v m kind csig hI hs
   obtain ⟨f, g, o1, o2, o3, o4, o5, o6, o7⟩ := proxyInterface_out cfg s2 s3 _ _ _ m _ _ hcn hp
   have hv := hvar hk
   have htyp : (s2.cms j).typ = s.vtyp v := by rw [(hI2.e j hj).2, hv, e5]
   rw [htyp, e4] at hmem
+  rw [htyp] at hfit
+  have hmem := hasMethod_mem _ _ hmem hns
   subst he
   refine ⟨f, (s2.cms j).ctx, g, i, ?_, ?_, ?_, hmem, ?_, ?_, ?_, ?_, ?_⟩
   · simp only; rw [o1, hv]; exact upd_same _ _ _
   · simp only; rw [o5, e4]
   · simp only; rw [o6, e5]
-  · simp only; rw [o2, upd_same, htyp, e4, methodIndexOf_eq_idxOf _ _ hmem]
+  · simp only; rw [o2, upd_same, htyp, e4, methodIndexOf_eq_idxOf _ _ hmem hns]
   · rcases o3 with ⟨h1, h2, _⟩ | ⟨h1, h2⟩
     · exact Or.inl ⟨by rw [h1, e3], h2⟩
     · exact Or.inr ⟨by rw [← e3]; exact (hI2.b _ _ _ h1).1, by rw [h2, e2]⟩
@@ -728,8 +773,8 @@ structure Inv2 (cfg : Cfg) (s : St) : Prop where
   k : cfg.keyByVar = true → ∀ b, ∀ p ∈ (s.blds b).mockers, p.1 = (s.vtyp (s.cms p.2).var, (s.cms p.2).var + 1)
   n : ∀ b p p', p ∈ (s.blds b).mockers → p' ∈ (s.blds b).mockers → p.1 = p'.1 → p = p'
 
-theorem inv2_init (cfg : Cfg) (types : Nat → List String) (vtyp : Nat → Nat) (vars : Nat → Words) :
-    Inv2 cfg (St.init types vtyp vars) := by
+theorem inv2_init (cfg : Cfg) (types : Nat → List String) (vtyp : Nat → Nat) (vars : Nat → Words) (sigs : Nat → List Nat) :
+    Inv2 cfg (St.init types vtyp vars sigs) := by
   refine ⟨?_, ?_, ?_, ?_, ?_⟩ <;> simp [St.init]
 
 theorem inv2_ncb (cfg : Cfg) (s : St) (n : Nat) (h : Inv2 cfg s) : Inv2 cfg { s with ncb := n } :=
@@ -917,7 +962,7 @@ theorem inv2_mockOn (cfg : Cfg) (s1 s' : St) (j : Nat) (m : String) (kind : Kind
 theorem inv2_step (cfg : Cfg) (s s' : St) (op : Op) (st : Status) (hI : Inv cfg s) (h2 : Inv2 cfg s)
     (hapi : op.builderApi = true) (hs : step cfg s op = some (s', st)) : Inv2 cfg s' := by
   cases op with
-  | mock b v m kind fits =>
+  | mock b v m kind csig =>
     simp only [step, mockStep] at hs
     have hI0 := inv_ncb cfg s (s.ncb + 1) hI
     have f1 := interfaceOf_facts cfg _ b v hI0
@@ -925,8 +970,12 @@ theorem inv2_step (cfg : Cfg) (s s' : St) (op : Op) (st : Status) (hI : Inv cfg 
     have h21 := inv2_interfaceOf cfg _ b v (inv2_ncb cfg s (s.ncb + 1) h2)
     generalize interfaceOf cfg { s with ncb := s.ncb + 1 } b v = r1 at hs f1 hI1 h21
     obtain ⟨j, s1⟩ := r1
-    exact inv2_mockOn cfg s1 s' j m kind fits _ st hI1 h21 f1.1 hs
-  | mockH b v m kind fits => simp [Op.builderApi] at hapi
+    exact inv2_mockOn cfg s1 s' j m kind _ _ st hI1 h21 f1.1 hs
+  | mockH b v m kind csig => simp [Op.builderApi] at hapi
+  | assign v x =>
+    simp only [step, Option.some.injEq, Prod.mk.injEq] at hs
+    obtain ⟨e, _⟩ := hs; subst e
+    exact ⟨h2.g, h2.r, h2.f, h2.k, h2.n⟩
   | cancelM b v m =>
     simp only [step, cancelMStep] at hs
     have f1 := interfaceOf_facts cfg s b v hI
